@@ -313,3 +313,44 @@ Theorem C15_mask_is_round_down : forall y k w, 0 <= k <= w -> 0 <= y < 2 ^ w ->
   Z.land y (2 ^ w - 1 - (2 ^ k - 1)) = y - y mod 2 ^ k.
 Proof. exact land_high_mask. Qed.
 Print Assumptions C15_mask_is_round_down.
+
+(* TIE TO THE SOURCE CODE of StreamParams::from_control (gen/StreamParamsSrc.v, re-translated by
+   tools/translate_streamparams.py on every run from cameleon/src/u3v/stream_handle.rs; the register each Sirm / Abrm
+   getter reads is taken from the getter's body in register_map.rs and emitted as the gen/RegTables.v constant; the calls
+   into register_map.rs mean what model/SpOps.v says, over model/Control.v).  For EVERY state of the control handle and
+   the device world the translated from_control leaves the same state as the model's stream_params and returns the same
+   outcome - the six parameters in the model's order, each `as usize`; under the invariant of the control model
+   (C07_every_operation_sound: register reads return u32 values) the conversions change nothing and the two are equal;
+   the transfers the model's loop_submits lists are leader, the TRANSLATED payload_transfer_sizes, trailer *)
+From Cam Require Import RdOps SpOps StreamParamsSrc P_C07c P_C12s.
+
+Theorem C15_stream_params_from_source :
+  (forall s, snd (src_StreamParams_from_control s) = snd (stream_params s) /\
+             omap sp_list (fst (src_StreamParams_from_control s)) = omap (map (r_cast 64)) (fst (stream_params s))) /\
+  (forall s, inv s ->
+     stream_params s = (omap sp_list (fst (src_StreamParams_from_control s)), snd (src_StreamParams_from_control s))) /\
+  (forall p, loop_submits (sp_list p) =
+             StreamParams_leader_size p :: src_StreamParams_payload_transfer_sizes p ++ [StreamParams_trailer_size p]).
+Proof. exact stream_params_from_source_all. Qed.
+Print Assumptions C15_stream_params_from_source.
+
+(* non-vacuity: on the device image of C15_params_readback_nonvacuous, enable_streaming followed by the translated
+   from_control gives leader 56, trailer 64, size 65536, count 0, final1 1000, final2 0 *)
+Theorem C15_stream_params_source_example :
+  match ctl_enable_streaming (ex_good_ctl, ex_world) with
+  | (Ok _, s1) => omap sp_list (fst (src_StreamParams_from_control s1))
+  | _ => Err 0
+  end = Ok [56; 64; 65536; 0; 1000; 0].
+Proof. exact c15s_example. Qed.
+Print Assumptions C15_stream_params_source_example.
+
+(* <StreamHandle as PayloadStream>::start_streaming_loop / stop_streaming_loop as the lists of their statements in the
+   source's order (gen/StreamParamsSrc.v; meaning of a statement: hs_run of model/SpOps.v), for every handle state and
+   device world: the parameters are read back first (an error becomes Io and changes nothing), InStreaming is reported
+   after that, the cancellation sender is stored before the thread is spawned; stop clears it only when it is there -
+   exactly model/StreamStart.v's strm_start / strm_stop *)
+Theorem C15_stream_start_from_source : forall x,
+  hs_run 16 src_StreamHandle_start_streaming_loop x = strm_start x /\
+  hs_run 16 src_StreamHandle_stop_streaming_loop x = strm_stop x.
+Proof. exact stream_start_from_source. Qed.
+Print Assumptions C15_stream_start_from_source.
